@@ -1238,6 +1238,79 @@ def canonicalise(relpath, tree):
     return applied, inl.refused
 
 
+def _bind_counts(fn):
+    c = {}
+    for x in ast.walk(fn):
+        if isinstance(x, ast.Name) and isinstance(x.ctx, (ast.Store, ast.Del)):
+            c[x.id] = c.get(x.id, 0) + 1
+    return c
+
+
+def _projectable(e):
+    """a value whose elements can be named by subscripting it: a name / attribute / constant-subscript chain"""
+    while isinstance(e, (ast.Attribute, ast.Subscript)):
+        if isinstance(e, ast.Subscript) and has_call(e.slice):
+            return False
+        e = e.value
+    return isinstance(e, ast.Name)
+
+
+def untuple_new_locals(fn, cands):
+    """tuple bindings of locals the reference function does not have are taken apart so that the Inline Variable pass
+    can remove them:  `a, b = x, y` -> `a = x; b = y`;  `a, b = v` -> `a = v[0]; b = v[1]`;  `for a, b in it:` ->
+    `for t in it:` with a, b read as t[0], t[1] (not for zip/enumerate/items, whose elements the rules name).  The
+    only difference is which exception a wrong-length sequence raises."""
+    applied = []
+    counts = _bind_counts(fn)
+    fresh = [0]
+
+    def new_names(ts):
+        return all(isinstance(t, ast.Name) and t.id in cands and counts.get(t.id, 0) == 1 for t in ts)
+
+    for x in ast.walk(fn):
+        for fld in ("body", "orelse", "finalbody"):
+            blk = getattr(x, fld, None)
+            if not (isinstance(blk, list) and blk and isinstance(blk[0], ast.stmt)):
+                continue
+            i = 0
+            while i < len(blk):
+                s = blk[i]
+                if isinstance(s, ast.Assign) and len(s.targets) == 1 and isinstance(s.targets[0], (ast.Tuple, ast.List)) \
+                        and new_names(s.targets[0].elts):
+                    ts = s.targets[0].elts
+                    if isinstance(s.value, (ast.Tuple, ast.List)):
+                        parts = split_tuple_assign(s)
+                        if len(parts) != 1 or parts[0] is not s:
+                            blk[i:i + 1] = parts
+                            applied.append(",".join(t.id for t in ts))
+                            i += len(parts)
+                            continue
+                    elif _projectable(s.value):
+                        parts = []
+                        for k, t in enumerate(ts):
+                            v = ast.Subscript(value=copy.deepcopy(s.value), slice=ast.Constant(value=k), ctx=ast.Load())
+                            parts.append(_assign(t, v, s))
+                        blk[i:i + 1] = parts
+                        applied.append(",".join(t.id for t in ts))
+                        i += len(parts)
+                        continue
+                elif isinstance(s, ast.For) and isinstance(s.target, (ast.Tuple, ast.List)) and new_names(s.target.elts) \
+                        and not (isinstance(s.iter, ast.Call) and _call_name(s.iter).split(".")[-1] in
+                                 ("zip", "enumerate", "items", "product")):
+                    name = f"_ut{fresh[0]}"
+                    fresh[0] += 1
+                    like = s.target
+                    for k, t in enumerate(s.target.elts):
+                        v = ast.Subscript(value=ast.Name(id=name, ctx=ast.Load()), slice=ast.Constant(value=k), ctx=ast.Load())
+                        for b in s.body + s.orelse:
+                            _SubstLoad(t.id, v).visit(b)
+                    applied.append(",".join(t.id for t in s.target.elts))
+                    s.target = ast.copy_location(ast.Name(id=name, ctx=ast.Store()), like)
+                    ast.fix_missing_locations(s)
+                i += 1
+    return applied
+
+
 def inline_new_locals(relpath, tree):
     """Inline Variable for locals absent from the reference function (run after alpha-normalisation)"""
     ref = alpha.load_ref().get(relpath)
@@ -1253,6 +1326,10 @@ def inline_new_locals(relpath, tree):
         cands = {n for n in local if n not in r["locals"] and n not in r["params"]}
         if not cands:
             continue
+        for v in untuple_new_locals(fn, cands):
+            applied.append((q, "untuple", v))
+        params, local = alpha.function_locals(fn, g)
+        cands = {n for n in local if n not in r["locals"] and n not in r["params"]}
         for v in VarInliner(fn, cands).run():
             applied.append((q, "inline-var", v))
     return applied
